@@ -397,7 +397,7 @@ def run(ctx):
         if ctx.tier == "quick":
             bound, cap = 2, 1500
         else:
-            bound, cap = 3, 40000
+            bound, cap = 3, 6000     # ~15 minutes on 16 cores
         tasks.append((cfg, bound, cap, ctx.seed))
     ctx.extra["configs"] = len(tasks)
     ctx.rule = ("for each configuration (storage {file mmap, file no-mmap, RAM} x {compound, loose segments} x writer "
